@@ -362,6 +362,27 @@ def fam_relatively_inexact_ppa(p):
             yield c * abs(xn), "f = %.4g |x| from 1" % c
 
 
+def fam_three_operator_splitting(p):
+    """x = J_{aB}(w), y = J_{aA}(2x - w - a C x), w+ = w - theta (x - y) with LINEAR members on R^2: A monotone (multiples of the
+    identity up to a stiff one standing for the normal cone of {0}, skew rotations), B = b Id with b <= 1/beta (beta-cocoercive),
+    C = gradient of a quadratic with spectrum in [mu, L].  The map w -> w+ is linear: the contraction factor between two runs
+    is its squared spectral norm."""
+    L, mu, beta, alpha, theta = p["L"], p["mu"], p["beta"], p["alpha"], p["theta"]
+    I2 = np.eye(2)
+    Jm = np.array([[0.0, -1.0], [1.0, 0.0]])
+    As = [("0", 0 * I2), ("Id", I2), ("10Id", 10 * I2), ("1e6Id", 1e6 * I2)] + [("%gJ" % s_, s_ * Jm) for s_ in (0.5, 2.0, 10.0)] \
+        + [("Id+2J", I2 + 2 * Jm)]
+    Bs = [("0", 0 * I2), ("Id/beta", I2 / beta), ("Id/(2beta)", I2 / (2 * beta)), ("diag", np.diag([1 / beta, 0.0]))]
+    Cs = [("mu", mu * I2), ("L", L * I2), ("diag", np.diag([mu, L])), ("mid", (mu + L) / 2 * I2)]
+    for an, A in As:
+        for bn, B in Bs:
+            for cn, C in Cs:
+                X = np.linalg.inv(I2 + alpha * B)
+                Y = np.linalg.inv(I2 + alpha * A) @ (2 * X - I2 - alpha * C @ X)
+                T = I2 - theta * (X - Y)
+                yield float(np.linalg.norm(T, 2) ** 2), "A=%s, B=%s, C=%s" % (an, bn, cn)
+
+
 def _two_lines(p, averaged):
     """Q1, Q2 = two lines through the origin of the plane at angle theta (closed convex sets with x* = 0 in both): projections
     are the linear maps u u^T; every angle of a grid and every unit start of a grid"""
@@ -885,6 +906,7 @@ FAMILIES = {
     "gradient_descent_contraction": fam_gd_contraction,
     "gradient_descent_silver_stepsize_convex": fam_gd_silver,
     "averaged_projections": fam_averaged_projections,
+    "three_operator_splitting": fam_three_operator_splitting,
     "relatively_inexact_proximal_point_algorithm": fam_relatively_inexact_ppa,
     "alternate_projections": fam_alternate_projections,
     "gradient_descent_quadratics": fam_gd_quadratics,
